@@ -169,6 +169,48 @@ def real_mutation(mj):
     raise ValueError(t)
 
 
+def abs_mutation_obj(mu):
+    """real mutation object -> model JSON (the inverse of sigs.real_mutation, for hinted lists)"""
+    from django_evolution import mutations as M
+    from django_evolution.placeholders import BasePlaceholder
+    t = type(mu).__name__
+
+    def init(v):
+        if v is None:
+            return None
+        if isinstance(v, BasePlaceholder) or callable(v):
+            return '"<<USER VALUE REQUIRED>>"'
+        return cv(v)
+    if t == 'AddField':
+        return {'t': t, 'model': mu.model_name, 'field': mu.field_name, 'ftype': mu.field_type.__name__,
+                'initial': init(mu.initial), 'attrs': [[k, cv(v)] for k, v in mu.field_attrs.items()]}
+    if t == 'ChangeField':
+        return {'t': t, 'model': mu.model_name, 'field': mu.field_name,
+                'ftype': mu.field_type.__name__ if mu.field_type else None,
+                'initial': init(mu.initial), 'attrs': [[k, cv(v)] for k, v in mu.field_attrs.items()]}
+    if t == 'DeleteField':
+        return {'t': t, 'model': mu.model_name, 'field': mu.field_name}
+    if t == 'DeleteModel':
+        return {'t': t, 'model': mu.model_name}
+    if t == 'ChangeMeta':
+        return model_mutation({'t': t, 'model': mu.model_name, 'prop': mu.prop_name, 'py_value': mu.new_value})
+    if t == 'RenameField':
+        return {'t': t, 'model': mu.model_name, 'old': mu.old_field_name, 'new': mu.new_field_name,
+                'db_column': mu.db_column, 'db_table': mu.db_table}
+    if t == 'RenameModel':
+        return {'t': t, 'old': mu.old_model_name, 'new': mu.new_model_name, 'db_table': mu.db_table,
+                'model_name_attr': mu.model_name}
+    if t == 'DeleteApplication':
+        return {'t': t}
+    if t == 'SQLMutation':
+        return {'t': t, 'tag': mu.tag, 'can_simulate': mu.update_func is not None}
+    if t == 'RenameAppLabel':
+        return {'t': t, 'old': mu.old_app_label, 'new': mu.new_app_label, 'legacy': mu.legacy_app_label,
+                'models': None}
+    return {'t': t}
+
+
+
 def model_mutation(mj):
     """strip harness-only keys; compute the model-side value of ChangeMeta"""
     out = {k: v for k, v in mj.items() if k not in ('py_value', 'sql')}
